@@ -87,3 +87,35 @@ pub fn panic_msg(p: &(dyn std::any::Any + Send)) -> String {
         "<non-string panic payload>".to_string()
     }
 }
+
+thread_local! {
+    static LAST_PANIC_LOC: std::cell::RefCell<Option<String>> = const { std::cell::RefCell::new(None) };
+}
+
+/// Install (once per process) a panic hook that remembers, per thread, where the last panic was raised; the
+/// previously installed hook still runs afterwards.
+pub fn install_panic_loc_hook() {
+    static ONCE: std::sync::Once = std::sync::Once::new();
+    ONCE.call_once(|| {
+        let prev = std::panic::take_hook();
+        std::panic::set_hook(Box::new(move |info| {
+            let loc = info.location().map(|l| format!("{}:{}", l.file(), l.line())).unwrap_or_else(|| "?".into());
+            LAST_PANIC_LOC.with(|c| *c.borrow_mut() = Some(loc));
+            prev(info);
+        }));
+    });
+}
+
+/// Run `f`, turning a panic into `Err((message, location))`. The location is relative to the repository when the
+/// panic was raised in the code under test (`/repo/...`), which is what makes it attributable.
+pub fn catch_panic<T>(f: impl FnOnce() -> T) -> Result<T, (String, String)> {
+    install_panic_loc_hook();
+    LAST_PANIC_LOC.with(|c| *c.borrow_mut() = None);
+    match std::panic::catch_unwind(std::panic::AssertUnwindSafe(f)) {
+        Ok(v) => Ok(v),
+        Err(p) => {
+            let loc = LAST_PANIC_LOC.with(|c| c.borrow().clone()).unwrap_or_else(|| "?".into());
+            Err((panic_msg(&*p), loc.strip_prefix("/repo/").map(|s| s.to_string()).unwrap_or(loc)))
+        }
+    }
+}
